@@ -284,7 +284,8 @@ func (n *Name) Substitute(old, new Name) {
 			n.Ident = new.Ident
 			n.ChannelID = new.ChannelID
 		}
-	} else if !n.Initialized() && n.Ident == old.Ident {
+	} else if !n.Initialized() && !old.Initialized() && n.Ident == old.Ident {
+		// (an initialised channel is only ever replaced by its identity, never by its display name)
 		n.Ident = new.Ident
 		n.Channel = new.Channel
 		n.ChannelID = new.ChannelID
